@@ -133,6 +133,47 @@ def extra_stage(v, tier, rng, impl):
                                       'stage': 'W (API-built models: push histories, write, reload)'}})
     v.coverage['api_built_models'] = len(cases)
     v.coverage['api_built_round_trips_ok'] = rt_ok
+    fails = fails[:3]
+    # files: A2lFile::write(path, banner) / load(path), three saves with and without a banner.  The first save may differ
+    # from the later ones (the banner takes the first line), from the second save on the bytes must not change any more
+    import random as _random
+    import docgen
+    sp = docs.spec()
+    bcases, btexts = [], []
+    for i in range(30 if tier == 'quick' else 1500):
+        opts = docgen.GenOptions(version=rng.choice(docs.VERSIONS), max_depth=4, max_repeat=2, p_optional=0.3,
+                                 ifdata=rng.choice([None, 'unknown']))
+        node = docgen.gen_tree(sp, _random.Random(rng.randrange(1 << 30)), opts)
+        docs.order_positions(node)
+        lay = docgen.Layout(mode=rng.choice(['canonical', 'random', 'oneline']), comments=rng.choice([None, 'block-level']))
+        text, _ = docgen.render(node, _random.Random(rng.randrange(1 << 30)), lay, sp)
+        for banner in ([], 'written by the check', 'two words\nand a second line'):
+            bcases.append([text, 0, banner])
+            btexts.append(text)
+    bout = fw.run_sharded([impl, 'BANNER'], [sx.enc(c) for c in bcases])
+    n_ok = 0
+    for c, line in zip(bcases, bout):
+        why = None
+        if not line or line.startswith('DIED'):
+            why = 'process died in the file save cycle'
+        else:
+            a = sx.dec(line)
+            st = a[0].decode()
+            if st == 'NOLOAD':
+                continue
+            if st in ('PANIC', 'ERR'):
+                why = '%s in the file save cycle: %s' % (st, sx.pretty(a[1:]))
+            elif not (a[1] and a[2]):
+                why = 'the model read back from the saved file differs from the loaded model (banner %r)' % (c[2],)
+            elif not a[3]:
+                why = 'the saved file keeps changing: second and third save differ (banner %r)' % (c[2],)
+            else:
+                n_ok += 1
+        if why and len(fails) < 3:
+            fails.append({'payload': {'kind': 'BANNER', 'case': sx.enc(c), 'text': c[0], 'banner': c[2], 'why': why,
+                                      'stage': 'W (file save cycle: write(path, banner), load(path))'}})
+    v.coverage['file_save_cycles'] = len(bcases)
+    v.coverage['file_save_cycles_ok'] = n_ok
     return fails[:3]
 
 
@@ -142,6 +183,16 @@ def check(tier, seed):
 
 
 def replay(r):
+    if r.get('kind') == 'BANNER':
+        impl = fw.build_harness()
+        line = fw.run_single([impl, 'BANNER'], r['case'])
+        print('text:', (r.get('text') or '')[:1500])
+        print('banner:', r.get('banner'))
+        a = sx.dec(line) if line and not line.startswith('DIED') else None
+        print('answer (model1 equal, model2 equal, text2 == text3, text1 == text2):', a)
+        bad = a is None or a[0] != b'OK' or not (a[1] and a[2] and a[3])
+        print('oracle:', 'violated' if bad else 'holds')
+        return 1 if bad else 0
     if r.get('kind') == 'C15':
         from checks import modlib as ml
         impl = fw.build_harness()
